@@ -76,6 +76,7 @@ structure Core where
   m : State
   t : Tables := {}
   handles : List (String × Reader) := []     -- readers held open by the harness
+  rps : Nat := 0                             -- ReadPartSize of the store (only labels branches: contents do not depend on it)
 
 /-- the accounting token the harness appends to every mutating operation when the memory cache is on:
 TotalBytes/NumEntries as reported, bytes/number of the entries present -/
@@ -83,6 +84,11 @@ def acctTok (s : State) : List String :=
   if s.cfg.memEnabled then
     [s!"acct={s.mem.total}/{MemCache.numEntries s.mem}/{MemCache.stored s.mem}/{MemCache.numEntries s.mem}"]
   else []
+
+/-- branch suffix: a refused stream of at least 128 KB that does not end on a 128 KB boundary, read through
+part-limited file reads (ReadPartSize ≠ 0) -/
+def tail128k (c : Core) (len : Nat) : String :=
+  if c.rps ≠ 0 ∧ len ≥ 131072 ∧ len % 131072 ≠ 0 then ".rps.tail128k" else ""
 
 def mutating : List String :=
   ["createUpload", "writeUpload", "commit", "createCache", "writeBlob", "genMeta", "drain", "ttl", "delete", "block", "unblock"]
@@ -112,12 +118,12 @@ def step1 (c : Core) (kind : String) (args : List String) : Option (Core × List
     let mine := match KV.get c.m.uploads u with | some b => bytesTok b | none => "-"
     if mine ≠ have_ then some (c, ["upload-content", mine], "commit.content-diff") else
     let (m, r) := commitUpload H c.m u n
-    let br := match r with | .verify => "commit.verify" | r => s!"commit.{resTok r}"
+    let br := match r with | .verify => "commit.verify" ++ tail128k c (have_.length / 2) | r => s!"commit.{resTok r}"
     some ({ c with m }, [resTok r], br)
   | "op", ["createCache", n, b] => do
     let b ← bytes? b
     let (m, r) := createCache H crc c.m n b
-    let br := match r with | .verify => "createCache.verify" | r => s!"createCache.{resTok r}"
+    let br := match r with | .verify => "createCache.verify" ++ tail128k c b.length | r => s!"createCache.{resTok r}"
     pure ({ c with m }, [resTok r], br)
   | "op", ["writeBlob", n, size, pl, atts] => do
     let size ← nat? size
